@@ -462,6 +462,12 @@ func (e *engine) check(prop string) *checkResult {
 			if layer != "" && o.Kind == "ensures" && !e.attributed(o, prop, isPrimary[fn], usedBy[fn]) {
 				continue
 			}
+			if layer != "" && o.Kind == "ensures" && len(e.w.db.Scopes[prop]) > 0 && len(o.Props) > 0 && !hasStr(o.Props, prop) {
+				// a sweep uses the postconditions labelled for other properties as proved by those properties' own
+				// checks (in the base layer, under fewer assumptions); it does not re-prove them in its own layer
+				res.assumptions["postcondition "+o.Label+" is used as proved by the check of property "+o.Props[0]] = true
+				continue
+			}
 			res.obls = append(res.obls, o)
 		}
 	}
@@ -487,6 +493,15 @@ func (e *engine) check(prop string) *checkResult {
 	solveAll(todo, e.opts)
 	res.wall = time.Since(t0).Seconds()
 	return res
+}
+
+func hasStr(xs []string, x string) bool {
+	for _, y := range xs {
+		if y == x {
+			return true
+		}
+	}
+	return false
 }
 
 func (e *engine) attributed(o *obligation, prop string, primary, used bool) bool {
